@@ -768,6 +768,15 @@ func (g *genCtx) compileClause(c *Contract, cl *Clause, si *sigInfo, pos token.P
 							}
 						}
 					}
+					if c.Lit != nil && !o.Pos().IsValid() == false && !(c.Lit.Pos() <= o.Pos() && o.Pos() < c.Lit.End()) {
+						// a variable of the enclosing function captured by the closure under contract
+						if inOld {
+							addParam(WParam{Name: "old_" + n.Name, Kind: PKEntry, Var: o, Type: o.Type()})
+							return &ast.Ident{Name: "old_" + n.Name}
+						}
+						addParam(WParam{Name: n.Name, Kind: PKCur, Var: o, Type: o.Type()})
+						return n
+					}
 					g.errs = append(g.errs, fmt.Sprintf("%s:%d: clause [%s]: local %q not allowed here", cl.File, cl.Line, cl.Label, n.Name))
 					return n
 				}
